@@ -241,14 +241,19 @@ pub fn build_world(w: &WorldSpec) -> BuiltWorld {
     for i in &l[5].as_list().unwrap()[1..] {
         let il = i.as_list().unwrap();
         match il[0].as_atom().unwrap() {
-            "script" => ifaces.push(Box::new(wire::ScriptIface {
+            "script" | "script-avail" => ifaces.push(Box::new(wire::ScriptIface {
                 name: wire::leak(&il[1].as_str().unwrap()),
                 desc: wire::leak(&il[2].as_str().unwrap()),
                 seen: seen.clone(),
                 calls: calls.clone(),
                 echo_up: false,
             })),
-            "gen" => ifaces.push(Box::new(wire::vtest::new(Box::new(wire::VTestImpl)))),
+            // (gen) in old case lines, (gen x<name> x<idl>) in current ones
+            "gen" => match il.get(1).and_then(|n| n.as_str()).unwrap_or_else(|| "org.example.vtest".to_string()).as_str() {
+                "org.example.vtest" => ifaces.push(Box::new(wire::vtest::new(Box::new(wire::VTestImpl)))),
+                "org.example.crlf" => ifaces.push(Box::new(wire::crlf::new(Box::new(wire::CrlfImpl)))),
+                other => panic!("generated interface {}", other),
+            },
             other => panic!("iface kind {}", other),
         }
     }
